@@ -1,6 +1,7 @@
 package main
 
 import (
+	"regexp"
 	"encoding/json"
 	"fmt"
 	"go/ast"
@@ -98,8 +99,16 @@ func opKey(op blockOp) string {
 	if op.dflt {
 		parts = append(parts, "default")
 	}
-	return fmt.Sprintf("%s:%s{%s}", ssaFuncKey(op.fn), op.kind, strings.Join(parts, ";"))
+	return fmt.Sprintf("%s:%s{%s}", stableFuncKey(op.fn), op.kind, stableClosureNames(strings.Join(parts, ";")))
 }
+
+var closureIdxRe = regexp.MustCompile(`\$\d+`)
+
+// stableClosureNames drops the ordinal go/ssa gives anonymous functions (f$3 → f$): adding or removing an unrelated
+// closure in the same function renumbers them, and keys must not depend on that.
+func stableClosureNames(s string) string { return closureIdxRe.ReplaceAllString(s, "$") }
+
+func stableFuncKey(fn *ssa.Function) string { return stableClosureNames(ssaFuncKey(fn)) }
 
 func isTimerOrCtx(ch string) bool {
 	return strings.HasPrefix(ch, "call:time.After(") || strings.HasSuffix(ch, ".C") && strings.Contains(ch, "imer") || strings.Contains(ch, "time.Timer") || strings.Contains(ch, "time.Ticker") ||
@@ -511,10 +520,10 @@ func (c *Ctx) handlerRoots() []*ssa.Function {
 
 func (c *Ctx) checkCloseOwners() {
 	owners := map[string][]string{
-		".doneChan":     {"protocol.(*Protocol).Start$1$1"},
-		".stopChan":     {"protocol.(*Protocol).Stop$1"},
-		".recvDoneChan": {"protocol.(*Protocol).recvLoop$1"},
-		".sendDoneChan": {"protocol.(*Protocol).sendLoop$1"},
+		".doneChan":     {"protocol.(*Protocol).Start$$"},
+		".stopChan":     {"protocol.(*Protocol).Stop$"},
+		".recvDoneChan": {"protocol.(*Protocol).recvLoop$"},
+		".sendDoneChan": {"protocol.(*Protocol).sendLoop$"},
 	}
 	n := 0
 	for _, fn := range c.pkgFuncs("protocol") {
@@ -528,7 +537,7 @@ func (c *Ctx) checkCloseOwners() {
 					continue
 				}
 				n++
-				fk := ssaFuncKey(fn)
+				fk := stableFuncKey(fn)
 				ok := false
 				for _, o := range own {
 					if fk == o {
@@ -545,7 +554,13 @@ func (c *Ctx) checkCloseOwners() {
 	// doneChan closer waits for both loop-done channels first
 	st := c.SSAFunc("protocol", "Protocol.Start")
 	for _, f := range withAnon(st) {
-		if ssaFuncKey(f) != "protocol.(*Protocol).Start$1$1" {
+		closes := false
+		for _, ci := range allCalls(f) {
+			if calleeName(ci.Common()) == "close" && strings.HasSuffix(desc(ci.Common().Args[0]), ".doneChan") {
+				closes = true
+			}
+		}
+		if !closes {
 			continue
 		}
 		var recvs []string
@@ -563,7 +578,7 @@ func (c *Ctx) checkCloseOwners() {
 			}
 		}
 		got := strings.Join(recvs, ",")
-		c.Check(closeIdx == 2 && strings.Contains(got, ".recvDoneChan") && strings.Contains(got, ".sendDoneChan"), "done-after-loops", "protocol.(*Protocol).Start$1$1", f.Pos(), "doneChan closes only after both loop-done channels fired", "doneChan is closed without having waited for recvDoneChan and sendDoneChan ("+got+")")
+		c.Check(closeIdx == 2 && strings.Contains(got, ".recvDoneChan") && strings.Contains(got, ".sendDoneChan"), "done-after-loops", stableFuncKey(f), f.Pos(), "doneChan closes only after both loop-done channels fired", "doneChan is closed without having waited for recvDoneChan and sendDoneChan ("+got+")")
 	}
 	// Stop and Connection.shutdown are Once-guarded
 	for _, spec := range [][3]string{{"protocol", "Protocol.Stop", ".onceStop"}, {".", "Connection.shutdown", ".onceShutdown"}, {"muxer", "Muxer.Stop", ".onceStop"}} {
